@@ -1,4 +1,4 @@
-//@unit dns_zone props=C36
+//@unit dns_zone props=C36,C37
 // C36 — the DNS server serves a zone only from packets signed by its key.
 use vstd::prelude::*;
 use vstd::std_specs::cmp::OrdSpec;
@@ -93,13 +93,22 @@ impl PublicKeyBytes {
 // ---- the persistent packet store (unit packet_store, C37): only VERIFIED packets may be handed to it, it files a packet
 // under the packet's own key
 pub struct SignedPacketStore { pub id: int }
-pub uninterp spec fn upserted(s: SignedPacketStore, p: SignedPacket) -> bool;
+// "p is the packet the store holds for its key" (the newest published one: unit packet_store proves the store keeps the
+// maximum).  A fact about the moment the store answered; later publishes invalidate the cache themselves.
+pub uninterp spec fn stored_newest(p: SignedPacket) -> bool;
 impl SignedPacketStore {
+    // Ok(true) exactly when the packet became the stored one (contract of the store actor's upsert arm, unit packet_store)
     #[verifier::external_body]
     pub async fn upsert(&self, packet: SignedPacket) -> (r: Result<bool>)
         requires packet.verified   // [C36] nothing unverified is ever stored
+        ensures r matches Ok(true) ==> stored_newest(packet)
+    { unimplemented!() }
+    #[verifier::external_body]
+    pub async fn get(&self, key: &PublicKeyBytes) -> (r: Result<Option<SignedPacket>>)
+        ensures r matches Ok(Some(p)) ==> stored_newest(p) && p.key@ == key.0@ && p.verified
     { unimplemented!() }
 }
+impl Clone for SignedPacket { #[verifier::external_body] fn clone(&self) -> (r: SignedPacket) ensures r == *self { unimplemented!() } }
 pub struct Counter;
 impl Counter { #[verifier::external_body] pub fn inc(&self) -> u64 { unimplemented!() } }
 pub struct Gauge;
@@ -208,8 +217,9 @@ impl ZoneCache {
         &&& forall|k: Seq<u8>| #[trigger] self.cache@.contains_key(k) ==> zone_for(self.cache@[k], k)
         &&& forall|k: Seq<u8>| #[trigger] self.dht_cache@.contains_key(k) ==> zone_for(self.dht_cache@[k], k)
     }
-//@fn iroh-dns-server/src/store.rs ZoneCache::insert props=C36 ret=r
-//@| requires old(self).wf()
+//@fn iroh-dns-server/src/store.rs ZoneCache::insert props=C36,C37 ret=r
+//@| requires old(self).wf(),
+//@|     stored_newest(*signed_packet),   // [C37] the answer cache is only ever filled with the packet the store currently holds
 //@| ensures
 //@|     final(self).wf(), final(self).dht_cache@ == old(self).dht_cache@,
 //@|     // publishing/caching under K never touches what is cached for any other key
@@ -233,8 +243,9 @@ impl ZoneCache {
 //@| requires old(self).wf()
 //@| ensures final(self).wf(), final(self).cache@ == old(self).cache@, final(self).dht_cache@ == old(self).dht_cache@,
 //@end
-//@fn iroh-dns-server/src/store.rs ZoneCache::insert_and_resolve props=C36 ret=r
-//@| requires old(self).wf()
+//@fn iroh-dns-server/src/store.rs ZoneCache::insert_and_resolve props=C36,C37 ret=r
+//@| requires old(self).wf(),
+//@|     stored_newest(*signed_packet),   // [C37]
 //@| ensures final(self).wf()
 //@end
 //@fn iroh-dns-server/src/store.rs ZoneCache::insert_and_resolve_dht props=C36 ret=r
@@ -253,19 +264,27 @@ impl ZoneCache {
 pub struct Mutex<T> { pub t: T }
 #[verifier::external_body]
 pub struct CacheGuard<'a> { g: core::marker::PhantomData<&'a mut ZoneCache> }
-impl<'a> CacheGuard<'a> {
-    // `guard.remove(&k)` through DerefMut: ZoneCache::remove on the protected cache (its contract is proved above)
+impl<'a> CacheGuard<'a> { pub uninterp spec fn st(&self) -> ZoneCache; }
+// the guard dereferences to the protected cache: every ZoneCache method called through it is checked against its contract
+impl<'a> core::ops::Deref for CacheGuard<'a> {
+    type Target = ZoneCache;
     #[verifier::external_body]
-    pub fn remove(&mut self, pubkey: &PublicKeyBytes) { unimplemented!() }
+    fn deref(&self) -> (r: &ZoneCache) ensures *r == self.st() { unimplemented!() }
+}
+impl<'a> core::ops::DerefMut for CacheGuard<'a> {
+    #[verifier::external_body]
+    fn deref_mut(&mut self) -> (r: &mut ZoneCache) ensures *r == old(self).st(), final(self).st() == *final(r) { unimplemented!() }
 }
 impl Mutex<ZoneCache> {
+    // what a critical section finds satisfies the cache invariant (every section is checked to leave it so: wf is a
+    // postcondition of every &mut method of ZoneCache)
     #[verifier::external_body]
-    pub async fn lock<'a>(&'a self) -> (r: CacheGuard<'a>) { unimplemented!() }
+    pub async fn lock<'a>(&'a self) -> (r: CacheGuard<'a>) ensures r.st().wf() { unimplemented!() }
 }
 pub struct Dht;
 //@item iroh-dns-server/src/store.rs struct ZoneStore pubfields pub
 impl ZoneStore {
-//@fn iroh-dns-server/src/store.rs ZoneStore::insert props=C36 ret=r
+//@fn iroh-dns-server/src/store.rs ZoneStore::insert props=C36,C37 ret=r
 //@| requires signed_packet.verified   // [C36] only verified packets are ever stored or served
 //@end
 }
